@@ -35,6 +35,35 @@ def oracle(sc):
     return out
 
 
+def wire_oracle(sc):
+    """the frames as written to the transport (after fragmentation): per stream, fragments of one frame are contiguous,
+    only the last fragment may carry COMPLETE, and no PAYLOAD follows the endpoint's own completion / ERROR"""
+    if not sc.legal:
+        return []
+    out = []
+    done = {}       # sid -> why the endpoint's own sending direction is over
+    open_train = {}
+    for n, b in enumerate(sc.rec.t.sent):
+        fr = sim.parse_sent(b)
+        sid, t = fr.get('sid'), fr.get('t')
+        if not sid:
+            continue
+        if t == 'Payload' and sid in done:
+            out.append(E.failure('wire:payload-after-own-completion', sc, sid=sid, n=n, after=done[sid]))
+        if t in ('Payload', 'RequestChannel') and fr.get('complete'):
+            if fr.get('follows'):
+                out.append(E.failure('wire:complete-flag-on-non-final-fragment', sc, sid=sid, n=n))
+            done[sid] = 'complete'
+        if t in E.REQ and sid in done:
+            del done[sid]           # the id is being reused for a new stream
+            if fr.get('complete') and not fr.get('follows'):
+                done[sid] = 'complete'
+        if open_train.get(sid) and t != 'Payload':
+            out.append(E.failure('wire:fragment-train-interrupted', sc, sid=sid, n=n, by=t))
+        open_train[sid] = bool(fr.get('follows')) if t in ('Payload',) + tuple(E.REQ) else False
+    return out
+
+
 def classify(case):
     if case.get('what') == 'illegal-frame' and case.get('kind') == 'rc' and case.get('ended_by') in ABNORMAL and \
             'after the stream terminated' in case.get('why', ''):
@@ -45,7 +74,8 @@ def classify(case):
 
 
 def _descs(ctx, n):
-    return E.mk_descs(ctx.rng, n, hostile=0.0, with_close=lambda r: r.random() < 0.3, steps=(4, 20), frag=0.2, race=0.5)
+    return E.mk_descs(ctx.rng, n, hostile=0.0, with_close=lambda r: r.random() < 0.3, steps=(4, 20), frag=0.2, race=0.5,
+                      out_frag=lambda r: r.random() < 0.4)
 
 
 # ---- SETUP first, once: requests issued at every tick of a connect() whose provider / transport suspend
@@ -159,7 +189,9 @@ def correspond(ctx, corr, model_ok):
     corr.oracle_failures.extend(crashed)
     for sc in runs:
         corr.oracle_failures.extend(oracle(sc))
+        corr.oracle_failures.extend(wire_oracle(sc))
         corr.count('raced', sc.raced)
+        corr.count('endpoint fragments its output', 1 if sc.out_frag else 0)
         for s in EP.steps_of_log(sc.rec.log):
             for e in s[2]:
                 if e[0] == 'enq':
@@ -189,6 +221,7 @@ def search(ctx, budget):
         found.extend(crashed)
         for sc in runs:
             found.extend(oracle(sc))
+            found.extend(wire_oracle(sc))
         for case in setup_cases(ctx, 40):
             found.extend(setup_oracle(case))
     return found
@@ -201,4 +234,4 @@ def replay(obj):
     if 'lease_case' in case:
         return bool(lease_oracle(case['lease_case']))
     runs, crashed = E.run_all([case['scenario']])
-    return bool(crashed) or any(oracle(sc) for sc in runs)
+    return bool(crashed) or any(oracle(sc) or wire_oracle(sc) for sc in runs)
